@@ -88,7 +88,7 @@ def symbol_check(rep, b):
     p = subprocess.run(["nm", "-g", "--defined-only", b["lib"]], stdout=subprocess.PIPE, stderr=subprocess.DEVNULL, text=True)
     syms = {l.split()[-1] for l in p.stdout.splitlines() if " T " in l}
     names = ["Op"] + list(b["types"]["owners"]) + [t.name for t in b["types"]["structs"]] + [t.name for t in b["types"]["enums"]]
-    mine = {s for s in syms if any(s.startswith(n + "_") for n in names)}
+    mine = {s for s in syms if any(s.startswith(n + "_") or s.startswith("ren_" + n + "_") for n in names)}   # (TNs carries abi_rename = "ren_{0}")
     protos = set()
     for f in os.listdir(b["hdr"]):
         if f.endswith(".h") and f != "diplomat_runtime.h":
